@@ -193,6 +193,7 @@ func checkC05(c *Check) {
 	checkC05Arms(c, L)
 	checkC05Regions(c, L)
 	checkC05Typestate(c, L)
+	checkC05CapacityTruth(c, L)
 	checkC05C(c, L)
 }
 
@@ -975,5 +976,171 @@ func checkC05GoSizes(c *Check, L *Loaded, r *Rule) {
 			}
 			return true
 		})
+	}
+}
+
+// R5.12: capacity truth in the generated list helpers. Every array that a generated list function allocates for a list
+// is allocated for exactly the number of elements the function records in that list's capacity field: the allocation's
+// element count is the value stored into the capacity (or a load of the capacity after it was stored). A list whose
+// recorded capacity exceeds its block is written past the end by the in-place append, and released/resized with a wrong
+// old size.
+func checkC05CapacityTruth(c *Check, L *Loaded) {
+	r := c.Rule("R5.12", "generated list helpers allocate the array for exactly the recorded capacity", 4)
+	cp := L.ByRel["src/compiler"]
+	idx := func(name string, def int64) int64 {
+		if cst, ok := cp.Types.Scope().Lookup(name).(*types.Const); ok {
+			if v, exact := constant.Int64Val(cst.Val()); exact {
+				return v
+			}
+		}
+		return def
+	}
+	arrIdx, capIdx := idx("list_arr_field_index", 0), idx("list_cap_field_index", 2)
+	var sym func(v *IRVal, d int) string
+	sym = func(v *IRVal, d int) string {
+		if v == nil || d > 10 {
+			return "?"
+		}
+		s := v.Op
+		if v.Op == "operand" || v.Op == "param" {
+			s = v.Src
+		}
+		if v.K != nil {
+			s += fmt.Sprint("#", *v.K)
+		}
+		if v.Pred != "" {
+			s += ":" + v.Pred
+		}
+		if len(v.Args) > 0 {
+			s += "("
+			for i, a := range v.Args {
+				if i > 0 {
+					s += ","
+				}
+				s += sym(a, d+1)
+			}
+			s += ")"
+		}
+		return s
+	}
+	// (base, field) of a destination getelementptr(base, 0, field)
+	fieldOfDest := func(v *IRVal) (string, int64, bool) {
+		if v == nil || v.Op != "getelementptr" || len(v.Args) < 3 || v.Args[len(v.Args)-1].K == nil {
+			return "", 0, false
+		}
+		return sym(v.Args[0], 0), *v.Args[len(v.Args)-1].K, true
+	}
+	var allocs func(v *IRVal, d int) []*IRVal
+	allocs = func(v *IRVal, d int) []*IRVal {
+		if v == nil || d > 6 {
+			return nil
+		}
+		if v.Op == "allocateArr" {
+			return []*IRVal{v}
+		}
+		var out []*IRVal
+		if v.Op == "select" || v.Op == "bitcast" {
+			for _, a := range v.Args {
+				out = append(out, allocs(a, d+1)...)
+			}
+		}
+		return out
+	}
+	for _, fn := range []string{"createListFromConstants", "createListDeepCopy", "createListSlice", "createListConcats"} {
+		fi := L.Fn("src/compiler.(*compiler)." + fn)
+		if fi == nil {
+			r.Und("compiler.(*compiler)."+fn, token.NoPos, "function not found")
+			continue
+		}
+		for _, elem := range []*GenT{{Kind: "int"}, {Kind: "string"}} {
+			in, mk := newGeneratorInterp(L)
+			key := "compiler.(*compiler)." + fn + "|element " + elem.String()
+			var bad []string
+			runs, nAlloc := 0, 0
+			in.RunAll(16, func() {
+				cobj := mk()
+				in.CallFunc(fi, cobj, []Val{&GenT{Kind: "list", Elem: elem}, boolV(false)})
+				for _, e := range in.Events {
+					if e.Kind == "cerr" || e.Kind == "panic" {
+						return
+					}
+				}
+				runs++
+				type st struct {
+					base string
+					val  *IRVal
+					pos  int
+				}
+				var capStores, arrStores []st
+				n := 0
+				for _, e := range in.Events {
+					if e.Kind != "store" || len(e.Data) < 2 {
+						continue
+					}
+					n++
+					val, _ := e.Data[0].(*IRVal)
+					dst, _ := e.Data[1].(*IRVal)
+					base, f, ok := fieldOfDest(dst)
+					if !ok || val == nil {
+						continue
+					}
+					switch f {
+					case capIdx:
+						capStores = append(capStores, st{base, val, n})
+					case arrIdx:
+						if len(allocs(val, 0)) > 0 {
+							arrStores = append(arrStores, st{base, val, n})
+						}
+					}
+				}
+				for _, as := range arrStores {
+					// the capacity store of the same list that belongs to this allocation: the last one before it, else the first after it
+					var cs *st
+					for i := range capStores {
+						if capStores[i].base == as.base && capStores[i].pos < as.pos {
+							cs = &capStores[i]
+						}
+					}
+					before := cs != nil
+					if cs == nil {
+						for i := range capStores {
+							if capStores[i].base == as.base && capStores[i].pos > as.pos {
+								cs = &capStores[i]
+								break
+							}
+						}
+					}
+					for _, al := range allocs(as.val, 0) {
+						nAlloc++
+						if len(al.Args) == 0 {
+							continue
+						}
+						count := al.Args[len(al.Args)-1]
+						if cs == nil {
+							bad = append(bad, "an array is allocated for "+as.base+" but its capacity is never recorded")
+							continue
+						}
+						same := sym(count, 0) == sym(cs.val, 0)
+						loadsCap := false
+						if count.Op == "load" && len(count.Args) == 1 {
+							if b, f, ok := fieldOfDest(count.Args[0]); ok && b == as.base && f == capIdx && before {
+								loadsCap = true
+							}
+						}
+						if !same && !loadsCap {
+							bad = append(bad, fmt.Sprintf("the array of %s is allocated for %s elements but the capacity recorded for it is %s", as.base, count, cs.val))
+						}
+					}
+				}
+			})
+			switch {
+			case runs == 0:
+				r.Und(key, fi.Decl.Pos(), "not evaluated")
+			case len(bad) > 0:
+				r.Bad(key, fi.Decl.Pos(), strings.Join(uniq(bad), "; ")+": the list states a capacity its block does not have - the in-place append writes past the end of the block, and the block is released or resized with a wrong old size")
+			default:
+				r.OK(key, fi.Decl.Pos(), fmt.Sprintf("%d allocation(s): each for exactly the recorded capacity", nAlloc))
+			}
+		}
 	}
 }
